@@ -173,6 +173,34 @@ CLAIMED = {
           "4 ulp for times, 1e-14 relative for resolutions; injected-data equality of twins at 1e-9 + 256 ulp(f)/df."),
     technique="TLA+ model (TLC exhaustive) + spec-generated frames instantiated on the implementation",
     design_ref="DESIGN.md 4.1, 5 (C05)", engine="frameaxes"),
+ "C01": dict(
+    text=("Injection.tla transcribes add_signal's case analysis over exact integers with an integer-valued probe family "
+          "(polynomial path, mod-3 time profile, triangle frequency profile, mod-2 bandpass): Expected(c) is the "
+          "documented per-component average (left Riemann t/f sub-sample grids, smearing = mean of n copies between "
+          "consecutive path values) as integer numerators over Den(c), with ValueError/TypeError outcomes for malformed "
+          "forms and 'array of T+1 values accepted with smearing'. TLC checks self-consistency invariants "
+          "(ScalarEqualsConstantFn, ArrayEqualsFnOnGrid, Smear1EqualsUnsmeared, ErrorsContributeNothing, ...) and "
+          "generates every configuration of three exhaustive families (forms x flags; ranges; paths x sub-sample counts) "
+          "plus a random cross product assembled by a Pick chain; each is executed by the real add_signal on 3 geometries "
+          "(dyadic, BL hi-res at 6 GHz, MHz-scale), both orientations, and the returned matrix compared with TLC's. "
+          "Shipped path/profile families with random parameters are compared with the statement written out by the "
+          "harness from the user's own callables (numeric projection)."),
+    note=("Trusted: TLC, the float implementation of the probe family in the adapter, geometry-scaled tolerance "
+          "(1e-9 + 64 ulp(fmax)*24/df*16), numpy. Left Riemann grids are taken as 'the documented average'. Unspecified "
+          "and not generated: array bandpass with bounding range or integrate_f_profile; several malformed components."),
+    technique="TLA+ model (TLC exhaustive) + spec-generated configurations executed by the implementation; definition-based oracle for shipped families",
+    design_ref="DESIGN.md 4.2, 5 (C01)", engine="injection"),
+ "C06": dict(
+    text=("Same Injection.tla behaviours (1-3 injections, prior pixel-identity content in float32, every 10th loaded from a "
+          ".fil): TLC checks ReturnedZeroOutsideBounds and BoundedIsRestriction; on the real frame after every injection "
+          "data_after == data_before + returned (bit for bit in the frame's dtype), columns outside the clipped range "
+          "byte-identical, fs/ts/shape/noise estimates/metadata/rng state/t_start unchanged (also after a raising call), "
+          "caller-supplied arrays not modified, bounded == unbounded restricted (twin frame), final data == prior + sum of "
+          "returned signals, same data in reverse order, and a repeated injection of the same description (with a "
+          "callable that hands out a persistent array) returns the same signal."),
+    note=("Trusted: as C01. Superposition compared at 1e-9 (float64) / 2e-7 (float32) relative."),
+    technique="TLA+ model (TLC exhaustive) + spec-generated behaviours replayed on the implementation",
+    design_ref="DESIGN.md 4.2, 5 (C06)", engine="injection"),
 }
 
 NOT_YET = "check not built yet in this round (planned, see DESIGN.md 5); no claim is made"
